@@ -14,6 +14,16 @@ package server
 //@   loop 1 invariant startIdx <= endIdx && endIdx <= max(len(header), startIdx)
 //@   loop 1 decreases len(header) - endIdx
 //@   ensures len(result) <= len(header)
+// (coverage extension) functional contract of the challenge-field scanner: no "key=" -> ""; otherwise the
+// value starts right after `key="` (2 bytes past the key: '=' and the opening quote), is a substring of the
+// header, ends at the FIRST quote that is followed by a comma or by the end of the header (or at the end of
+// the header when there is no such quote), and contains no earlier such quote.
+//@   loop 1 invariant forall j int :: startIdx <= j && j < endIdx ==> !(header[j] == 34 && (j + 1 >= len(header) || header[j + 1] == 44))
+//@   ensures sindex(header, key + "=") == -1 ==> result == ""
+//@   ensures sindex(header, key + "=") >= 0 && sindex(header, key + "=") + len(key) + 2 > len(header) ==> result == ""
+//@   ensures sindex(header, key + "=") >= 0 && sindex(header, key + "=") + len(key) + 2 <= len(header) ==> sindex(header, key + "=") + len(key) + 2 + len(result) <= len(header) && result == header[sindex(header, key + "=") + len(key) + 2 : sindex(header, key + "=") + len(key) + 2 + len(result)]
+//@   ensures sindex(header, key + "=") >= 0 && sindex(header, key + "=") + len(key) + 2 + len(result) < len(header) ==> header[sindex(header, key + "=") + len(key) + 2 + len(result)] == 34 && (sindex(header, key + "=") + len(key) + 2 + len(result) + 1 >= len(header) || header[sindex(header, key + "=") + len(key) + 2 + len(result) + 1] == 44)
+//@   ensures sindex(header, key + "=") >= 0 ==> forall j int :: sindex(header, key + "=") + len(key) + 2 <= j && j < sindex(header, key + "=") + len(key) + 2 + len(result) ==> !(header[j] == 34 && (j + 1 >= len(header) || header[j + 1] == 44))
 
 //@ extern func strings.TrimPrefix
 //@   pure
@@ -21,6 +31,17 @@ package server
 
 //@ func parseRegistryChallenge
 //@   modifies nothing
+// (coverage extension) the three fields of the challenge are the values of realm / service / scope of the
+// header after the "Bearer " prefix was dropped - each taken with its own key, none swapped.
+//@   ghost-at after call TrimPrefix #1 : ghost_tp := result
+//@   ghost-at after call getValue #1 : ghost_v1 := result
+//@   ghost-at after call getValue #2 : ghost_v2 := result
+//@   ghost-at after call getValue #3 : ghost_v3 := result
+//@   assert-at call TrimPrefix #1 : arg0 == authStr && arg1 == "Bearer "
+//@   assert-at call getValue #1 : arg0 == ghost_tp && arg1 == "realm"
+//@   assert-at call getValue #2 : arg0 == ghost_tp && arg1 == "service"
+//@   assert-at call getValue #3 : arg0 == ghost_tp && arg1 == "scope"
+//@   ensures result.Realm == ghost_v1 && result.Service == ghost_v2 && result.Scope == ghost_v3
 
 // makeRequest: testMakeRequestDialContext is a test-only hook (assigned only in routes_test.go);
 // the unchecked http.DefaultTransport.(*http.Transport) sits behind it.
@@ -28,6 +49,23 @@ package server
 //@   assume-at after call Get #1 : testMakeRequestDialContext == nil     -- test hook, nil outside _test.go
 //@   modifies requestURL.Scheme, headers[all]
 //@   ensures result.1 == nil ==> result.0 != nil
+// (coverage extension) the request that is sent is built from the caller's method, URL text
+// (requestURL.String() after the optional scheme downgrade) and body; a token in the registry options is
+// sent as "Authorization: Bearer <token>" (the retry after a 401 depends on it); the scheme is rewritten
+// only to "http" and only for Insecure options; the request handed to Do is the one built here.
+//@   ghost-at after call String #1 : ghost_us := result
+//@   assert-at call String #1 : arg0 == requestURL
+//@   assert-at call NewRequestWithContext #1 : arg0 == ctx && arg1 == method && arg2 == ghost_us && arg3 == body
+//@   assert-at call Set #1 : regOpts.Token != "" && arg0 == req.Header && arg1 == "Authorization" && arg2 == "Bearer " + regOpts.Token
+//@   assert-at call Set #2 : arg0 == req.Header && arg1 == "User-Agent"
+//@   ghost-at entry : ghost_auth := 0
+//@   ghost-at after call Set #1 : ghost_auth := 1
+//@   assert-at call Do #1 : arg1 == req
+//@   assert-at call Do #1 : regOpts != nil && regOpts.Token != "" ==> ghost_auth == 1
+//@   assert-at call Do #1 : headers != nil ==> req.Header == headers
+// the client that sends it carries the caller's redirect policy (run$1 installs the CDN policy run$1$1 there)
+//@   assert-at call Do #1 : arg0.CheckRedirect == regOpts.CheckRedirect
+//@   ensures requestURL.Scheme != old(requestURL.Scheme) ==> regOpts != nil && regOpts.Insecure && requestURL.Scheme == "http"
 
 //@ func makeRequestWithRetry
 //@   modifies requestURL.Scheme, headers[all], regOpts.Token
@@ -36,6 +74,24 @@ package server
 // (return ordinals of this function follow govc's visiting order, see `./check C03 --list`)
 //@   assume-at return #3 : result.1 != nil      -- `return nil, os.ErrNotExist`: the library sentinel is non-nil
 //@   assume-at return #8 : errUnauthorized != nil      -- `return nil, errUnauthorized`: assigned once at package init, never reassigned
+// (coverage extension) "auth challenge parsing and token retry": every attempt is the caller's request
+// (same context, method, URL, headers, options); after a 401 the challenge parsed is THAT response's
+// www-authenticate header, the token obtained for it is stored in regOpts.Token before the next attempt
+// (makeRequest then sends it, see above); an error of the token endpoint ends the request (no retry without
+// token); the response returned on success is the last attempt's.
+// ghost_retry  0 no token fetched yet / 1 token fetched without error / 2 token fetch failed
+//@   ghost-at entry : ghost_retry := 0
+//@   ghost-at after call Get #1 : ghost_wa := result
+//@   ghost-at after call getAuthorizationToken #1 : ghost_tok := result.0
+//@   ghost-at after call getAuthorizationToken #1 : ghost_retry := ite(result.1 == nil, 1, 2)
+//@   loop 1 invariant ghost_retry == 0 || ghost_retry == 1
+//@   loop 1 invariant ghost_retry == 1 ==> regOpts.Token == ghost_tok
+//@   assert-at call makeRequest #1 : arg0 == ctx && arg1 == method && arg2 == requestURL && arg3 == headers && arg5 == regOpts
+//@   assert-at call makeRequest #1 : ghost_retry == 1 ==> regOpts.Token == ghost_tok
+//@   assert-at call Get #1 : arg0 == resp.Header && arg1 == "www-authenticate" && resp.StatusCode == 401
+//@   assert-at call parseRegistryChallenge #1 : arg0 == ghost_wa
+//@   assert-at call getAuthorizationToken #1 : arg0 == ctx && arg1 == challenge
+//@   assert-at return #6 : result.0 == resp && result.1 == nil
 
 // ---- trusted library contracts used by the pull path (only frames: what a call may change in
 // ---- memory the verified functions can see; network/file-system effects are not modelled).
@@ -77,12 +133,30 @@ package server
 // makeRequest with fresh headers and fresh registryOptions: nothing of the caller is written.
 //@ func getAuthorizationToken
 //@   modifies nothing
+// (coverage extension) the token returned is the one decoded from the body of the signed GET to the
+// challenge's URL: the request goes to redirectURL with the signature in the Authorization header, the body
+// read is that response's, a status >= 400 or a body that is not JSON is an error - never an empty token
+// reported as success.
+//@   ghost-at entry : ghost_um := 0
+//@   ghost-at after call Unmarshal #1 : ghost_um := ite(result == nil, 1, 0)
+//@   assert-at call URL #1 : arg0 == challenge
+//@   assert-at call Add #1 : arg0 == headers && arg1 == "Authorization" && arg2 == signature
+//@   assert-at call makeRequest #1 : arg0 == ctx && arg1 == "GET" && arg2 == redirectURL && arg3 == headers
+//@   assert-at call ReadAll #1 : arg0 == response.Body
+//@   assert-at call Unmarshal #1 : response.StatusCode < 400 && len(arg0) == len(body)
+//@   ensures result.1 == nil ==> ghost_um == 1
 //@ extern func auth.NewNonce
 //@   modifies nothing
 //@ func (registryChallenge).URL
 //@   assume-at after call Parse #1 : result.1 == nil ==> result.0 != nil && fresh(result.0)     -- net/url.Parse returns a new URL
 //@   modifies nothing
 //@   ensures result.1 == nil ==> result.0 != nil && fresh(result.0)
+// (coverage extension) the token URL is the challenge's realm with service and every scope word added
+//@   assert-at call Parse #1 : arg0 == r.Realm
+//@   assert-at call Split #1 : arg0 == r.Scope && arg1 == " "
+//@   assert-at call Add #1 : arg1 == "service" && arg2 == r.Service
+//@   assert-at call Add #2 : arg1 == "scope" && arg2 == s
+//@   assert-at call Add #4 : arg1 == "nonce" && arg2 == nonce
 
 // ---- blobDownload.Prepare: part layout computed from an arbitrary Content-Length ----
 // writePart only writes the part's JSON record to disk.
@@ -145,6 +219,14 @@ package server
 //@   assert-at return #5 : ghost_head == 1 ==> forall k int, j int :: 0 <= k && j == k + 1 && j < len(b.Parts) ==> b.Parts[k].Offset + b.Parts[k].Size == b.Parts[j].Offset
 //@   assert-at return #5 : ghost_head == 1 ==> forall k int :: 0 <= k && k < len(b.Parts) ==> b.Parts[k].Size > 0 && b.Parts[k].N == k
 //@   assert-at return #5 : ghost_head == 1 && b.Total > 0 ==> len(b.Parts) > 0
+// (coverage extension) both layouts - resumed from part records (loop 1) or fresh (loop 2): every part of a
+// prepared download exists and points back to this download (blobDownloadPart.Name, the progress counter of
+// Write and the record file name all go through that pointer; run / run$2 / downloadChunk dereference it).
+// The download handed to Prepare has no parts yet (proved at the call in downloadBlob).
+//@   requires len(b.Parts) == 0
+//@   loop 1 invariant forall k int :: 0 <= k && k < len(b.Parts) ==> b.Parts[k] != nil && b.Parts[k].blobDownload == b
+//@   loop 2 invariant forall k int :: 0 <= k && k < len(b.Parts) ==> b.Parts[k].blobDownload == b
+//@   ensures result == nil ==> forall k int :: 0 <= k && k < len(b.Parts) ==> b.Parts[k] != nil && b.Parts[k].blobDownload == b
 
 // ---- downloadBlob ----
 //@ extern func sync.(*Map).Delete
@@ -205,6 +287,16 @@ package server
 // still be inside Prepare) nothing establishes it - recorded in known_findings.json.
 //@   assert-at call Wait #1 : !ok ==> download.CancelFunc != nil
 //@   assert-at call Wait #1 : ok ==> download.CancelFunc != nil
+// (coverage extension) the blob is requested from <scheme>://<registry>/v2/<namespace>/<repository>/blobs/<digest>
+// of the caller's ModelPath (BaseURL / GetNamespaceRepository of opts.mp, joined with exactly these four
+// elements); Prepare gets that URL and the caller's registry options; the store path is asked for the digest.
+//@   ghost-at after call GetNamespaceRepository #1 : ghost_nr := result
+//@   assert-at call GetBlobsPath #1 : arg0 == opts.digest
+//@   assert-at call BaseURL #1 : arg0 == opts.mp
+//@   assert-at call GetNamespaceRepository #1 : arg0 == opts.mp
+//@   assert-at call JoinPath #1 : arg0.Scheme == opts.mp.ProtocolScheme && arg0.Host == opts.mp.Registry && len(arg1) == 4 && arg1[0] == "v2" && arg1[1] == ghost_nr && arg1[2] == "blobs" && arg1[3] == opts.digest
+//@   assert-at call Prepare #1 : arg1 == ctx && arg2 == requestURL && arg3 == opts.regOpts
+//@   assert-at call Wait #1 : arg1 == ctx
 
 //@ extern func context.WithCancel
 //@   modifies nothing
@@ -397,6 +489,19 @@ package server
 //@   ghost-at after call GetManifest #1 : ghost_gm := 1
 //@   ghost-at call pullModelManifest #1 : ghost_pm := 1
 //@   ensures ghost_gm == 1 ==> ghost_pm == 1 || result == errInsecureProtocol
+// (coverage extension) one name, one ModelPath, one registry: the local manifest read, the manifest pulled,
+// every blob download and the manifest path written all concern mp = ParseModelPath(name) (contract in
+// verif_contracts_c04.go) and the caller's context / registry options; what is marshalled is a *Manifest and
+// the bytes written are the bytes json.Marshal returned, to the path mp.GetManifestPath() returned.
+//@   ghost-at after call GetManifestPath #1 : ghost_mfp := result.0
+//@   ghost-at after call Marshal #1 : ghost_mjl := len(result.0)
+//@   assert-at call ParseModelPath #1 : arg0 == name
+//@   assert-at call GetManifest #1 : arg0 == mp
+//@   assert-at call pullModelManifest #1 : arg0 == ctx && arg1 == mp && arg2 == regOpts
+//@   assert-at call downloadBlob #1 : arg0 == ctx && arg1.mp == mp && arg1.regOpts == regOpts
+//@   assert-at call Marshal #1 : tagis(arg0, "*Manifest")
+//@   assert-at call GetManifestPath #1 : arg0 == mp
+//@   assert-at call WriteFile #1 : arg0 == ghost_mfp && len(arg1) == ghost_mjl && len(manifestJSON) == ghost_mjl && (len(arg1) > 0 ==> &arg1[0] == &manifestJSON[0])
 
 // ==== C03 (B): blobDownload.run - the -partial file gets its final name only after every part
 // ==== goroutine returned nil and the file was closed ====
@@ -554,6 +659,18 @@ package server
 //@   ghost-at after call Decode #1 : ghost_dec := ite(result == nil, 1, 0)
 //@   assert-at call Decode #1 : ghost_rq == 1
 //@   ensures result.1 == nil ==> result.0 != nil && ghost_rq == 1 && ghost_dec == 1
+// (coverage extension) the request is GET <scheme>://<registry>/v2/<namespace>/<repository>/manifests/<tag> of
+// the ModelPath given (BaseURL / GetNamespaceRepository of mp - both now proved - joined with exactly these four
+// elements), made with the caller's registry options; the body decoded is the body of THAT response, the
+// decode target is the manifest returned.
+//@   ghost-at after call GetNamespaceRepository #1 : ghost_nr := result
+//@   assert-at call BaseURL #1 : arg0 == mp
+//@   assert-at call GetNamespaceRepository #1 : arg0 == mp
+//@   assert-at call JoinPath #1 : arg0.Scheme == mp.ProtocolScheme && arg0.Host == mp.Registry && len(arg1) == 4 && arg1[0] == "v2" && arg1[1] == ghost_nr && arg1[2] == "manifests" && arg1[3] == mp.Tag
+//@   assert-at call makeRequestWithRetry #1 : arg1 == "GET" && arg2 == requestURL && arg5 == regOpts
+//@   assert-at call NewDecoder #1 : arg0 == resp.Body
+//@   assert-at call Decode #1 : tagis(arg1, "*Manifest")
+//@   ensures result.1 == nil ==> fresh(result.0)
 
 // (round 4) redirect policy of the direct-URL lookup: a redirect is followed (nil) only while at most 10
 // requests were made and only to the host of the registry request; everything else stops the client.
@@ -576,3 +693,62 @@ package server
 //@   ghost-at after call Store #1 : ghost_st := 1
 //@   assert-at call Store #1 : arg0 == &p.Completed && arg1 == j.Completed && p.N == j.N && p.Offset == j.Offset && p.Size == j.Size
 //@   ensures result == nil ==> ghost_st == 1
+
+// ==== C03 coverage extension: functions the pull path was only trusting (extern) or calling without ====
+// ==== contract are put under contract and their bodies verified (props/C03.json `functions`)       ====
+// A `func` contract here replaces the `extern func` stub of the same name in verif_contracts_c09.go
+// (contract files load in sorted order; the first non-extern declaration is the one in force).
+
+// setSparse (non-windows build): empty body - the trusted frame above is now proved.
+//@ func setSparse
+//@   modifies nothing
+
+// GetSHA256Digest: what verifyBlob calls "the file's digest". The hash is fed by ONE io.Copy of the
+// WHOLE reader r itself (not a limited / wrapped view, not a second reader) into the sha256 state that
+// is later summed; a read error never yields a digest (log.Fatal exits: `ensures false`, trusted); the
+// text is "sha256:" + lower-case hex of that state's Sum (format "sha256:%x", one operand) and the
+// byte count is the one io.Copy reported.
+//@ extern func log.Fatal
+//@   modifies nothing
+//@   ensures false
+//@ func GetSHA256Digest
+//@   modifies nothing
+//@   ghost-at entry : ghost_cpn := 0
+//@   ghost-at entry : ghost_cpok := 0
+//@   ghost-at entry : ghost_sum := 0
+//@   ghost-at after call New #1 : ghost_hh := result
+//@   ghost-at after call io.Copy #1 : ghost_cpn := result.0
+//@   ghost-at after call io.Copy #1 : ghost_cpok := ite(result.1 == nil, 1, 0)
+//@   ghost-at after call Sum #1 : ghost_sum := 1
+//@   assert-at call io.Copy #1 : arg0 == ghost_hh && arg1 == r
+//@   assert-at call Sum #1 : ghost_cpok == 1 && arg0 == ghost_hh && len(arg1) == 0
+//@   assert-at call fmt.Sprintf #1 : ghost_sum == 1 && arg0 == "sha256:%x" && len(arg1) == 1
+//@   ensures ghost_cpok == 1 && ghost_sum == 1 && result.1 == ghost_cpn
+
+// GetManifest (local manifest of a name; PullModel reads it to learn which layers the pull replaces):
+// the file opened is the one (ModelPath).GetManifestPath names; a manifest is returned only when json
+// Decode of THAT file returned nil - a truncated / garbage manifest file is an error, never a partly
+// filled manifest whose layers would be taken for the model's.
+//@ func GetManifest
+//@   modifies nothing
+//@   ensures result.2 == nil ==> result.0 != nil
+//@   ghost-at entry : ghost_mdec := 0
+//@   ghost-at after call GetManifestPath #1 : ghost_mfp := result.0
+//@   ghost-at after call os.Open #1 : ghost_mf := result.0
+//@   ghost-at after call Decode #1 : ghost_mdec := ite(result == nil, 1, 0)
+//@   assert-at call os.Open #1 : arg0 == ghost_mfp
+//@   assert-at call GetManifestPath #1 : arg0 == mp
+//@   assert-at call io.TeeReader #1 : tagis(arg0, "*os.File")
+//@   ensures result.2 == nil ==> ghost_mdec == 1 && fresh(result.0)
+//@   ensures result.2 != nil ==> result.0 == nil
+
+// (ModelPath).BaseURL / GetNamespaceRepository: the registry URL of a name is scheme://registry, the
+// repository path is "<namespace>/<repository>".
+//@ func (ModelPath).BaseURL
+//@   modifies nothing
+//@   ensures result != nil && fresh(result)
+//@   ensures result.Scheme == mp.ProtocolScheme && result.Host == mp.Registry
+//@ func (ModelPath).GetNamespaceRepository
+//@   modifies nothing
+//@   assert-at call fmt.Sprintf #1 : arg0 == "%s/%s" && len(arg1) == 2
+//@   assert-at call fmt.Sprintf #1 : tagis(arg1[0], "string") && tagis(arg1[1], "string")
